@@ -92,9 +92,9 @@ def census_check(events, kw, v, desc):
     return n, worst
 
 
-def run_once(binary, d, coin, chain, work, s=None, e=None, nofile=None, log=None, tag="run"):
+def run_once(binary, d, coin, chain, work, s=None, e=None, nofile=None, log=None, tag="run", verify=False):
     dump = harness.fresh(os.path.join(work, "o"))
-    p = harness.run_cb(binary, d, coin, "csvdump", dump, s, e, log=log, rlimits={"RLIMIT_NOFILE": nofile} if nofile else None, timeout=600)
+    p = harness.run_cb(binary, d, coin, "csvdump", dump, s, e, verify=verify, log=log, rlimits={"RLIMIT_NOFILE": nofile} if nofile else None, timeout=600)
     bad = oracles.check_csvdump(p, dump, chain, coin, s or 0, e)
     return p, bad
 
@@ -153,9 +153,20 @@ def case(spec):
     if spec.get("ranges", True) and tip > 4:
         ranges += [(lrng.randint(1, tip - 2), None, "start-inside"), (None, lrng.randint(2, tip - 1), "stop-inside"),
                    (tip // 3, max(tip // 3 + 1, 2 * tip // 3), "window")]
+    if spec.get("ranges", True) and tip > 4:
+        # ranges that begin right behind the last block of a file, with --verify (which looks at the record of height start-1): a file
+        # that holds no block of the range has no block yet to come
+        top = {}
+        for pl in kw["placements"]:
+            if pl.indexed and pl.status == datadir.ACTIVE:
+                top[pl.file] = max(top.get(pl.file, -1), pl.height)
+        firsts = sorted(h + 1 for h in top.values() if 0 < h + 1 <= tip)
+        for s0 in lrng.sample(firsts, min(2, len(firsts))):
+            ranges.append((s0, None, "verify-start-behind-a-file"))
+        ranges.append((lrng.randint(1, tip - 1), None, "verify-start-inside"))
     for s, e, rk in ranges:
         log = os.path.join(work, "ev.jsonl")
-        p, bad = run_once(binary, d, coin, chain, work, s, e, log=log)
+        p, bad = run_once(binary, d, coin, chain, work, s, e, log=log, verify=rk.startswith("verify"))
         counters["runs"] += 1
         v.extend(viol("census-run:" + sig, "%s [layout=%s range=%s..%s]" % (det, desc, s, e)) for sig, det in bad)
         ev = harness.read_events(log)
